@@ -43,7 +43,7 @@ pub fn malformations() -> Vec<Malformation> {
     for value in ["num", "numeric2", "alphabetical", "number", "numeric lexicographic", "0"] {
         add("keep-sorted-format:unknown", format!("keep-sorted keep-sorted-format=\"{value}\""), &["1", "2"], false);
     }
-    let numeric_cases: &[&[&str]] = &[&["x", "1"], &["1", "x"], &["1", "2", "x"], &["1", "x", "3"], &["1", "2", "3", "1O"], &["1", "", "two"], &["1", "2,5"], &["1", "0x10"]];
+    let numeric_cases: &[&[&str]] = &[&["x", "1"], &["1", "x"], &["1", "2", "x"], &["1", "x", "3"], &["1", "2", "3", "1O"], &["1", "", "two"], &["1", "2,5"], &["1", "0x10"], &["x", "x"], &["N/A", "N/A", "N/A"], &["1", "1", "x", "x"]];
     for content in numeric_cases {
         add("keep-sorted:non-numeric-key-under-numeric-sort", "keep-sorted keep-sorted-format=\"numeric\"".to_string(), content, false);
     }
@@ -92,11 +92,12 @@ pub fn malformations() -> Vec<Malformation> {
     v
 }
 
-/// Healthy companions: (attributes, content).
+/// Healthy companions: (attributes, content). `{lua}` is replaced by a healthy script's path, so
+/// that an async validator runs next to the sync ones and a healthy script next to a broken one.
 const HEALTHY: &[(&str, &[&str])] = &[
     ("name=\"h0\" keep-sorted keep-unique", &["a = 1", "b = 2"]),
     ("name=\"h1\" line-count=\"<1\" severity=\"warning\"", &["c = 1"]),
-    ("name=\"h2\" line-pattern=\"^[a-z] = \\d$\" keep-sorted=\"desc\"", &["z = 1", "a = 2"]),
+    ("name=\"h2\" line-pattern=\"^[a-z] = \\d$\" keep-sorted=\"desc\" check-lua=\"{lua}\"", &["z = 1", "a = 2"]),
 ];
 
 #[derive(Clone, Debug, PartialEq, Eq, Hash)]
@@ -114,7 +115,8 @@ fn build(m: &Malformation, case: &Case) -> Vec<(String, String)> {
     if case.position == 3 {
         return vec![("x.py".to_string(), bad)];
     }
-    let healthy: Vec<String> = HEALTHY.iter().map(|(a, c)| block(a, c)).collect();
+    let ok_script = format!("{}/ok.lua", scripts().1);
+    let healthy: Vec<String> = HEALTHY.iter().map(|(a, c)| block(&a.replace("{lua}", &ok_script), c)).collect();
     if case.own_file {
         // Healthy blocks in x.py and z.py, the bad one in y.py (walk order decides first/middle/last).
         let mut files = vec![("x.py".to_string(), format!("{}{}", healthy[0], healthy[1])), ("z.py".to_string(), healthy[2].clone())];
